@@ -118,7 +118,13 @@ pub fn build_proof(rng: &mut impl Rng, env: &PayEnv, content: XorName, n: usize,
     if !c.signed {
         // one quote whose signature does not belong to its claimed node
         let i = rng.gen_range(0..n);
-        match rng.gen_range(0..3) {
+        match rng.gen_range(0..4) {
+            3 => {
+                // a complete, internally consistent quote made by somebody else (own key, own signature),
+                // listed under the payee's peer id
+                let q = gen::quote_for(&env.stranger, quotes[i].1.content, ts, rng);
+                quotes[i].1 = q;
+            }
             0 => {
                 let l = quotes[i].1.signature.len();
                 quotes[i].1.signature[rng.gen_range(0..l)] ^= 0x40;
